@@ -1,6 +1,8 @@
 \* C29 PoSA: family bsc, chain configuration F (MCPoSA!SetsF), mode gen
 SPECIFICATION Spec
 CONSTANTS Family = "bsc"
+          Epoch = 0
+          CliqueFixed = FALSE
           Sets <- SetsF
           GenesisSigner = "c"
           G0 = 200
